@@ -51,7 +51,12 @@ import (
 var c11Terminal = []string{"200r1", "200r2", "200nh", "400", "403", "503"}
 var c11Retryable = []string{"408", "429", "500", "502", "conn"}
 
-func c11Base(o string) string { return strings.TrimPrefix(o, "slow:") }
+// Prefix "late:" (stream shared-http-client only) delays the answer by a real
+// time span that is far inside the request timeout configured for the type of
+// this client's services.
+func c11Base(o string) string {
+	return strings.TrimPrefix(strings.TrimPrefix(o, "slow:"), "late:")
+}
 
 func c11IsRetryable(o string) bool {
 	switch c11Base(o) {
@@ -107,12 +112,32 @@ type c11Case struct {
 	// HashBlind: the fake services answer from their script even when the
 	// body they received does not hash to the address (a real Keep service
 	// answers 422). Only set for some real-transport wrong-hash puts.
-	HashBlind bool `json:"hash_blind_services,omitempty"`
-	EnumIdx  string   `json:"enum,omitempty"`
+	HashBlind bool   `json:"hash_blind_services,omitempty"`
+	Kind      string `json:"client_kind,omitempty"` // shared-http-client: disk | proxy | uris | mixed
+	EnumIdx   string `json:"enum,omitempty"`
 	// History: for multi-step cases on ONE client, the services lists that
 	// were loaded (and whether a Put was made) before this step's list
 	History []string `json:"history,omitempty"`
-	data     []byte
+	// RefreshStyle (refresh stream, discovery path): "" = one refresh request,
+	// the API answers at once; "put-during-fetch" = one refresh request, the
+	// Put is issued after it returned while the keep_services/accessible call
+	// it caused is still in flight; "second-request-during-fetch" = a second
+	// refresh request is made while the call caused by the first is in flight,
+	// the Put is issued as soon as all refresh requests have returned.
+	// RefreshVia: how each refresh request is made (kc = kc.RefreshServiceDiscovery(),
+	// pkg = RefreshServiceDiscovery()).
+	RefreshStyle string   `json:"refresh_style,omitempty"`
+	RefreshVia   []string `json:"refresh_via,omitempty"`
+	// DefaultClient: KeepClient.HTTPClient is nil, the Put goes through the
+	// process-wide default http client of the keepclient package (real
+	// loopback servers). Insecure = ArvadosClient.ApiInsecure. URIs: the
+	// services come from ArvadosClient.KeepServiceURIs (ARVADOS_KEEP_SERVICES)
+	// instead of a services list. LateMs: delay of a "late:" answer.
+	DefaultClient bool `json:"default_http_client,omitempty"`
+	Insecure      bool `json:"api_insecure,omitempty"`
+	URIs          bool `json:"keep_service_uris,omitempty"`
+	LateMs        int  `json:"late_ms,omitempty"`
+	data          []byte
 }
 
 func (s *c11Svc) outcome(k int) string {
@@ -151,8 +176,8 @@ type c11State struct {
 	inflight int64
 	// verifyHash: refuse (422) complete bodies whose md5 is not the address
 	verifyHash bool
-	entered  int64
-	exited   int64
+	entered    int64
+	exited     int64
 }
 
 type c11Answer struct {
@@ -216,6 +241,9 @@ func (st *c11State) serve(svc int, method, pathHash, desired string, clen int64,
 				time.Sleep(20 * time.Microsecond)
 			}
 		}
+	}
+	if strings.HasPrefix(out, "late:") {
+		time.Sleep(time.Duration(st.c.LateMs) * time.Millisecond)
 	}
 	if st.verifyHash && rec.BodyMD5 != pathHash {
 		// a faithful Keep service refuses a body that does not match its address
@@ -435,6 +463,131 @@ type c11Shared struct {
 	mu      sync.Mutex
 	list    string
 	fetches int
+	// gate: while non-nil, a keep_services/accessible call to the stub API
+	// stays in flight (its answer - the list as of the arrival of the call -
+	// is held back) until the gate is closed; arrived is signalled when such
+	// a call comes in.
+	gate         chan struct{}
+	arrived      chan struct{}
+	gateWatchdog int64
+}
+
+// apiFetch is the stub API's keep_services/accessible handler.
+func (sh *c11Shared) apiFetch() string {
+	sh.mu.Lock()
+	body := sh.list
+	sh.fetches++
+	g, arr := sh.gate, sh.arrived
+	sh.mu.Unlock()
+	if g != nil {
+		select {
+		case arr <- struct{}{}:
+		default:
+		}
+		select {
+		case <-g:
+		case <-time.After(10 * time.Second):
+			atomic.AddInt64(&sh.gateWatchdog, 1)
+		}
+	}
+	return body
+}
+
+// overlappedRefresh makes the refresh requests of c.RefreshVia such that the
+// keep_services/accessible call caused by the first one is still in flight
+// when the others are made. It returns when all refresh requests have
+// returned. If they all return while the call is still in flight, the call is
+// left in flight (the caller's Put comes next; the returned open() ends the
+// call, and it ends by itself a little later, since a client that waits for
+// the fresh list needs it). Otherwise (a refresh request waits for the call)
+// the call is allowed to end first. Steering only: the Put that follows is
+// judged against the list the API server had when the first refresh request
+// was made, whichever way it went.
+func (sh *c11Shared) overlappedRefresh(run *verifkit.Run, c *c11Case) (open func()) {
+	gate := make(chan struct{})
+	arrived := make(chan struct{}, 16)
+	sh.mu.Lock()
+	sh.gate, sh.arrived = gate, arrived
+	sh.mu.Unlock()
+	var once sync.Once
+	open = func() {
+		once.Do(func() {
+			sh.mu.Lock()
+			sh.gate = nil
+			sh.mu.Unlock()
+			close(gate)
+		})
+	}
+	done := make(chan struct{}, len(c.RefreshVia))
+	issue := func(via string) {
+		go func() {
+			if via == "pkg" {
+				RefreshServiceDiscovery()
+			} else {
+				sh.kc.RefreshServiceDiscovery()
+			}
+			done <- struct{}{}
+		}()
+	}
+	issue(c.RefreshVia[0])
+	select {
+	case <-arrived:
+	case <-time.After(10 * time.Second):
+		run.Count("refresh_overlap_fetch_never_arrived(non-deciding)", 1)
+		open()
+	}
+	for _, via := range c.RefreshVia[1:] {
+		issue(via)
+	}
+	returned := 0
+	grace := time.NewTimer(40 * time.Millisecond)
+	defer grace.Stop()
+wait:
+	for returned < len(c.RefreshVia) {
+		select {
+		case <-done:
+			returned++
+		case <-grace.C:
+			break wait
+		}
+	}
+	if returned == len(c.RefreshVia) {
+		run.Count("refresh_overlap_all_requests_returned_while_fetch_in_flight", 1)
+		time.AfterFunc(15*time.Millisecond, open)
+		return open
+	}
+	run.Count("refresh_overlap_a_request_waited_for_the_fetch", 1)
+	open()
+	for returned < len(c.RefreshVia) {
+		select {
+		case <-done:
+			returned++
+		case <-time.After(30 * time.Second):
+			run.Inconclusive("C11: a refresh request did not return within 30 s although the keep_services/accessible call was answered")
+			return open
+		}
+	}
+	return open
+}
+
+// Request timeouts configured (package variables of keepclient) while the
+// stream shared-http-client runs, and the delay of a "late:" answer: far above
+// the timeout for disk services, far below the timeout for proxies.
+const (
+	c11DiskRequestTimeout  = 400 * time.Millisecond
+	c11ProxyRequestTimeout = 120 * time.Second
+	c11LateMs              = 1000
+)
+
+// c11AllNonDisk: every listed service is of a type other than disk (the
+// client is a pure proxy client; the timeouts for proxies apply to it).
+func c11AllNonDisk(c *c11Case) bool {
+	for _, s := range c.Svcs {
+		if s.Type == "disk" {
+			return false
+		}
+	}
+	return true
 }
 
 // Do routes a request of the shared client to the step that issued it (the
@@ -483,6 +636,12 @@ func (env *c11Env) execOn(c *c11Case, sh *c11Shared) {
 		sh.states.Store(reqid, st)
 		defer sh.states.Delete(reqid)
 		kc.HTTPClient = sh
+	} else if c.DefaultClient {
+		// the package's process-wide default http client
+		env.pool.states.Store(reqid, st)
+		defer env.pool.states.Delete(reqid)
+		kc.HTTPClient = nil
+		kc.Arvados.ApiInsecure = c.Insecure
 	} else if c.Real {
 		env.pool.states.Store(reqid, st)
 		defer env.pool.states.Delete(reqid)
@@ -496,8 +655,21 @@ func (env *c11Env) execOn(c *c11Case, sh *c11Shared) {
 		sh.mu.Lock()
 		sh.list = c11ServicesJSON(c, hosts, ports)
 		sh.mu.Unlock()
-		kc.RefreshServiceDiscovery()
-		kc.WritableLocalRoots()
+		if c.RefreshStyle == "" {
+			kc.RefreshServiceDiscovery()
+			kc.WritableLocalRoots()
+		} else {
+			open := sh.overlappedRefresh(run, c)
+			// whatever happens below: end the API call, then let the
+			// client load a list, so that no call is in flight when the
+			// next step changes the API server's answer
+			defer kc.WritableLocalRoots()
+			defer open()
+		}
+	} else if c.URIs {
+		for i := range c.Svcs {
+			kc.Arvados.KeepServiceURIs = append(kc.Arvados.KeepServiceURIs, fmt.Sprintf("http://%s:%d", hosts[i], ports[i]))
+		}
 	} else if err := kc.LoadKeepServicesFromJSON(c11ServicesJSON(c, hosts, ports)); err != nil {
 		run.Inconclusive("C11: LoadKeepServicesFromJSON failed: " + err.Error())
 		return
@@ -519,6 +691,7 @@ func (env *c11Env) execOn(c *c11Case, sh *c11Shared) {
 	var loc string
 	var rep int
 	var err error
+	t0 := time.Now()
 	switch c.API {
 	case "PutB":
 		loc, rep, err = kc.PutB(data)
@@ -532,7 +705,33 @@ func (env *c11Env) execOn(c *c11Case, sh *c11Shared) {
 		run.Inconclusive("C11: unknown api " + c.API)
 		return
 	}
+	elapsed := time.Since(t0)
 	logAtReturn, _ := st.snapshot()
+	if c.DefaultClient {
+		// Watchdog (non-deciding): the default client has request/connect
+		// timeouts. A Put that took longer than 3/4 of the shortest timeout
+		// configured for this type of client may have had a request cut off
+		// legitimately; it is not judged. (Disk type, or mixed: the 400 ms
+		// request timeout set by this harness; pure proxy clients: the 30 s
+		// connect timeout.)
+		limit := c11DiskRequestTimeout
+		if c11AllNonDisk(c) {
+			limit = DefaultProxyConnectTimeout
+			if c11ProxyRequestTimeout < limit {
+				limit = c11ProxyRequestTimeout
+			}
+		}
+		// requests the client has given up may still be held by a service
+		for i := 0; i < 20*(c.LateMs+2000) && (atomic.LoadInt64(&st.inflight) > 0 || i < 3); i++ {
+			time.Sleep(50 * time.Microsecond)
+		}
+		if elapsed >= limit*3/4 {
+			run.Count("default_client_puts_not_judged(took longer than 3/4 of the client's shortest timeout; non-deciding)", 1)
+			run.Trivial()
+			return
+		}
+		run.Count("default_client_puts_judged", 1)
+	}
 
 	// wait for abandoned uploads (started, but not needed any more) so that
 	// the request log is complete. Non-deciding: on timeout we only lose
@@ -571,6 +770,19 @@ func (env *c11Env) execOn(c *c11Case, sh *c11Shared) {
 	bad := func(sig, detail string) {
 		if sh != nil {
 			sig += ":after-services-list-refresh"
+			if c.RefreshStyle != "" {
+				sig += ":" + c.RefreshStyle
+			}
+		}
+		if c.DefaultClient {
+			sig += ":process-wide-default-http-client"
+			for _, r := range log {
+				if strings.HasPrefix(r.Outcome, "late:") {
+					sig += ":slow-answer-far-inside-the-timeout-for-proxies"
+					break
+				}
+			}
+			detail += fmt.Sprintf("\nPut took %v; this client: api_insecure=%v, all services non-disk=%v (request timeout configured: disk %v, proxy %v; late answers are delayed %d ms); default-client users in this process before it: %v", elapsed, c.Insecure, c11AllNonDisk(c), c11DiskRequestTimeout, c11ProxyRequestTimeout, c.LateMs, c.History)
 		}
 		b, _ := json.Marshal(log)
 		run.Violation(sig, fmt.Sprintf("%s\nreturned: locator=%q replicas=%d err=%v\nrequest log: %s", detail, loc, rep, err, b), c)
@@ -781,6 +993,9 @@ func (env *c11Env) execOn(c *c11Case, sh *c11Shared) {
 		if strings.HasPrefix(o, "slow:") {
 			run.Count("answer:slow", 1)
 		}
+		if strings.HasPrefix(o, "late:") {
+			run.Count("answer:late", 1)
+		}
 		if r.Attempt == 0 {
 			fired[c11Base(o)] = true
 		}
@@ -810,7 +1025,21 @@ func (env *c11Env) execOn(c *c11Case, sh *c11Shared) {
 		}
 		pre := ""
 		if sh != nil {
-			pre = fmt.Sprintf("refreshed-list(%s,step%d),", sh.mode, len(c.History))
+			pre = fmt.Sprintf("refreshed-list(%s,step%d%s),", sh.mode, len(c.History), c.RefreshStyle)
+		}
+		if c.DefaultClient {
+			earlier := map[string]bool{}
+			for _, h := range c.History {
+				if strings.HasSuffix(h, fmt.Sprintf("(api_insecure=%v)", c.Insecure)) {
+					earlier[strings.SplitN(h, "(", 2)[0]] = true
+				}
+			}
+			var el []string
+			for k := range earlier {
+				el = append(el, k)
+			}
+			sort.Strings(el)
+			pre = fmt.Sprintf("default-http-client(%s,insecure=%v,earlier-in-process=%s),", c.Kind, c.Insecure, strings.Join(el, "|"))
 		}
 		run.Feature(pre + fmt.Sprintf("w%d,ro%d,%s,want%d,retr%d,%s,%s,first=%s,maxattempt=%d", nW, nRO, c11Types(c), c.Wanted, c.Retries, c.API, res, strings.Join(fl, "|"), maxAtt))
 	} else {
@@ -1160,10 +1389,7 @@ func TestVerifC11(t *testing.T) {
 			arv.Client = &http.Client{Transport: c11RT(func(r *http.Request) (*http.Response, error) {
 				st, body := 404, `{"errors":["not found"]}`
 				if r.URL.Path == "/arvados/v1/keep_services/accessible" {
-					sh.mu.Lock()
-					st, body = 200, sh.list
-					sh.fetches++
-					sh.mu.Unlock()
+					st, body = 200, sh.apiFetch()
 				}
 				return &http.Response{StatusCode: st, Status: fmt.Sprintf("%d %s", st, http.StatusText(st)), Proto: "HTTP/1.1", ProtoMajor: 1, ProtoMinor: 1, Header: http.Header{"Content-Type": {"application/json"}}, Body: io.NopCloser(strings.NewReader(body)), Request: r}, nil
 			})}
@@ -1229,6 +1455,18 @@ func TestVerifC11(t *testing.T) {
 			if step < nsteps-1 && rng.Chance(1, 3) {
 				c.API = "none"
 			}
+			if mode == "api" && step > 0 && rng.Chance(1, 8) {
+				// the API server is slow: the call caused by the refresh
+				// request is still in flight when the Put (or a second
+				// refresh request, then the Put) comes
+				c.RefreshStyle = "put-during-fetch"
+				c.RefreshVia = []string{rng.PickStr("kc", "pkg")}
+				if rng.Chance(2, 3) {
+					c.RefreshStyle = "second-request-during-fetch"
+					c.RefreshVia = append(c.RefreshVia, rng.PickStr("kc", "pkg"))
+				}
+				run.Count("refresh_steps_"+c.RefreshStyle, 1)
+			}
 			run.Input(c, false)
 			env.execOn(c, sh)
 			desc := fmt.Sprintf("list%d{", step)
@@ -1248,6 +1486,9 @@ func TestVerifC11(t *testing.T) {
 		for _, k := range strings.Split(strings.TrimPrefix(changes, ","), ",") {
 			run.Count("refresh_change_"+k, 1)
 		}
+		if n := atomic.LoadInt64(&sh.gateWatchdog); n > 0 {
+			run.Count("refresh_api_call_released_by_watchdog(non-deciding)", int(n))
+		}
 		if mode == "api" {
 			sh.mu.Lock()
 			if sh.fetches < nsteps {
@@ -1257,6 +1498,98 @@ func TestVerifC11(t *testing.T) {
 			sh.mu.Unlock()
 		}
 	})
+
+	// ---- KeepClients that use the package's process-wide default http client
+	// (HTTPClient == nil), one after the other in this process: disk-only,
+	// pure proxy (services list or KeepServiceURIs), mixed; ApiInsecure
+	// on/off. Real loopback services; a service of a pure proxy client may
+	// answer 200 "late": after c11LateMs, which is 2.5x the request timeout
+	// configured for disk services and 1/120 of the one for proxies. The
+	// timeouts are the package variables, set here before the first default
+	// client of this process is made. Every Put is judged with U1-U6 unless it
+	// took longer than 3/4 of the shortest timeout that applies to its client.
+	oldD, oldP := DefaultRequestTimeout, DefaultProxyRequestTimeout
+	DefaultRequestTimeout, DefaultProxyRequestTimeout = c11DiskRequestTimeout, c11ProxyRequestTimeout
+	var defaultUsers []string
+	run.Cases("shared-http-client", run.N(64, 1600), func(i int, rng *verifkit.Rand) {
+		nclients := rng.PickInt(2, 2, 3)
+		insecure := rng.Bool()
+		for j := 0; j < nclients; j++ {
+			if j > 0 && rng.Chance(1, 4) {
+				insecure = !insecure
+			}
+			kind := rng.PickStr("disk", "disk", "proxy", "proxy", "uris", "mixed")
+			c := &c11Case{Mode: "shared-http-client", Kind: kind, Real: true, DefaultClient: true, Insecure: insecure, URIs: kind == "uris",
+				Wanted: rng.Range(1, 2), Retries: rng.Range(0, 1), LateMs: c11LateMs, History: append([]string(nil), defaultUsers...)}
+			nW := rng.Range(1, 3)
+			nRO := 0
+			if kind != "uris" && rng.Chance(1, 3) {
+				nRO = 1
+			}
+			if kind == "mixed" && nW+nRO < 2 {
+				nW = 2
+			}
+			late := -1
+			if (kind == "proxy" || kind == "uris") && rng.Bool() {
+				late = rng.Intn(nW)
+			}
+			mask := rng.Perm(nW + nRO)
+			w := 0
+			for s := 0; s < nW+nRO; s++ {
+				sv := c11Svc{UUID: c11UUID(rng), RO: mask[s] >= nW}
+				switch kind {
+				case "disk":
+					sv.Type = "disk"
+				case "mixed":
+					sv.Type = []string{"disk", "proxy"}[(s+i)%2]
+				default:
+					sv.Type = "proxy"
+				}
+				if kind == "uris" {
+					// what discoverServices calls the i-th URI
+					sv.UUID = fmt.Sprintf("00000-bi6l4-%015d", s)
+				}
+				switch {
+				case sv.RO:
+					sv.Script = []string{"200r2"}
+				case w == late:
+					sv.Script = []string{"late:" + rng.PickStr("200r1", "200r2", "200nh")}
+				default:
+					accept := rng.Chance(2, 3)
+					for k := 0; k <= c.Retries; k++ {
+						if accept {
+							sv.Script = append(sv.Script, rng.PickStr("200r1", "200r1", "200r2", "200nh"))
+						} else {
+							sv.Script = append(sv.Script, rng.PickStr("500", "503", "403", "conn", "200r1"))
+						}
+					}
+				}
+				if !sv.RO {
+					w++
+				}
+				c.Svcs = append(c.Svcs, sv)
+			}
+			c.Size = c11PickSize(rng, true)
+			c.DataSeed = rng.Uint64()
+			c11PickAPI(rng, c)
+			c.Decoy = rng.Bool()
+			c11Finish(c)
+			run.Input(c, false)
+			env.exec(c)
+			// (the first user of each kind is what matters: the package
+			// makes its default clients on first use)
+			u, seen := fmt.Sprintf("%s(api_insecure=%v)", kind, insecure), false
+			for _, h := range defaultUsers {
+				seen = seen || h == u
+			}
+			if !seen {
+				defaultUsers = append(defaultUsers, u)
+			}
+			run.Count("default_client_puts_"+kind, 1)
+		}
+		run.Count("default_client_sequences", 1)
+	})
+	DefaultRequestTimeout, DefaultProxyRequestTimeout = oldD, oldP
 
 	// ---- boundary: PutHR of the empty block (dataBytes=0); thorough: a block
 	// of exactly BLOCKSIZE is not oversize
